@@ -665,6 +665,10 @@ pub struct Sim {
     node: Option<Obj>,
     node_side: Scripted,
     devs: BTreeMap<String, (DeviceHandle, Obj)>,
+    /// every handle `register_device` ever returned for a name, oldest first (an application may keep clones)
+    kept: BTreeMap<String, Vec<DeviceHandle>>,
+    /// devices live ON THE WIRE: a DBIRTH was handed to the client and no DDEATH / NDEATH / NBIRTH since
+    wire_live: BTreeMap<String, Payload>,
     seen_calls: usize,
     hashed: HashSet<String>,
     online: bool,
@@ -763,6 +767,8 @@ impl Sim {
             node: None,
             node_side: Scripted::default(),
             devs: BTreeMap::new(),
+            kept: BTreeMap::new(),
+            wire_live: BTreeMap::new(),
             seen_calls: 0,
             hashed: HashSet::new(),
             online: false,
@@ -803,11 +809,19 @@ impl Sim {
         let mut db = BTreeMap::new();
         for c in &calls[self.seen_calls..] {
             match c.kind {
-                Kind::NBirth => nb = c.payload.clone(),
+                Kind::NBirth => {
+                    nb = c.payload.clone();
+                    self.wire_live.clear();
+                }
+                Kind::NDeath => self.wire_live.clear(),
                 Kind::DBirth => {
                     if let Some(p) = &c.payload {
                         db.insert(topic_device(&c.topic), p.clone());
+                        self.wire_live.insert(topic_device(&c.topic), p.clone());
                     }
+                }
+                Kind::DDeath => {
+                    self.wire_live.remove(&topic_device(&c.topic));
                 }
                 _ => {}
             }
@@ -906,6 +920,31 @@ impl Sim {
                 }
                 _ => out.line(line, "bad-op"),
             },
+            // unregister through the k-th handle ever returned for this name (a kept clone, possibly of a
+            // registration that is long gone): `unregister_device(handle)` unregisters the device of that name
+            "undevh" if w.len() == 4 => {
+                // (k beyond the last = the newest; a name never registered has no handle: nothing to do)
+                let kh = match (unhex_str(w[2]), w[3].parse::<usize>().ok()) {
+                    (Some(n), Some(k)) => {
+                        let dh = self.kept.get(&n).and_then(|v| v.get(k.min(v.len().saturating_sub(1))).cloned());
+                        Some((n, dh))
+                    }
+                    _ => None,
+                };
+                match (kh, self.handle.clone()) {
+                    (Some((n, dh)), Some(h)) => {
+                        if let Some(dh) = dh {
+                            self.rt.block_on(async { h.unregister_device(dh).await });
+                        }
+                        self.devs.remove(&n);
+                        self.settle();
+                        self.new_births();
+                        out.line(line, "ok");
+                        out.count("op:undevh");
+                    }
+                    _ => out.line(line, "bad-op"),
+                }
+            }
             "devmv" if w.len() == 4 => self.op_devmv(line, w[2], w[3], out),
             "online" => self.op_birth("online", None, out),
             "rebirth" => self.op_birth("rebirth", None, out),
@@ -919,6 +958,7 @@ impl Sim {
                         self.deaths += 1;
                     }
                     self.new_births();
+                    self.wire_live.clear();
                     out.line("birth offline", "ok");
                 } else {
                     out.line(line, "bad-op");
@@ -1058,6 +1098,7 @@ impl Sim {
             }
             Ok(Ok(dh)) => {
                 dh.enable();
+                self.kept.entry(new_n.clone()).or_default().push(dh.clone());
                 self.settle();
                 self.new_births();
                 self.devs.insert(new_n, (dh, Obj { mgr: obj.mgr, dead: false, birth: None, order: vec![] }));
@@ -1094,6 +1135,7 @@ impl Sim {
             }
             Ok(Ok(dh)) => {
                 dh.enable();
+                self.kept.entry(name.clone()).or_default().push(dh.clone());
                 self.settle();
                 let mut o = Obj { mgr, dead: false, birth: None, order: vec![] };
                 let (_, db) = self.new_births();
@@ -1704,6 +1746,13 @@ impl Sim {
                 objs.push((format!("device {:?}", d), p));
             }
         }
+        // a device the application no longer holds but that is still live on the wire (DBIRTH, no DDEATH /
+        // NDEATH / NBIRTH since): a host application still resolves its aliases
+        for (d, p) in &self.wire_live {
+            if !self.devs.contains_key(d) {
+                objs.push((format!("device {:?} (unregistered by the application, no DDEATH published)", d), p));
+            }
+        }
         let mut fails = vec![];
         for (who, p) in &objs {
             for m in &p.metrics {
@@ -1961,6 +2010,43 @@ fn gen_device_ids(out: &mut Out) {
         lines.push(format!("birth pub {} 0", h(set[0])));
         run_case(&lines, out, "gen:device-ids");
     }
+    // kept handles: register A, unregister through its handle, register A again, unregister AGAIN through the
+    // OLD handle, then register the name colliding with A; every registration's aliases must stay unique among
+    // the devices live on the wire (online and offline, old and new handle, with and without a third device)
+    for (i, (a, b)) in PAIRS.iter().take(4).enumerate() {
+        for online_first in [true, false] {
+            for stale in [0usize, 1] {
+                let mut lines = vec!["birth new -".to_string(), "birth node scripted _".into(), script("n", &m)];
+                if online_first {
+                    lines.push("birth online".into());
+                }
+                lines.push(format!("birth dev {} scripted", h(a)));
+                lines.push(script(&h(a), &m));
+                lines.push(format!("birth undevh {} 0", h(a)));
+                lines.push(format!("birth dev {} scripted", h(a)));
+                lines.push(script(&h(a), &m));
+                if !online_first {
+                    lines.push("birth online".into());
+                } else {
+                    lines.push(format!("birth drebirth {}", h(a)));
+                }
+                lines.push(format!("birth undevh {} {}", h(a), stale));
+                if i % 2 == 1 {
+                    // ... and registered a third time before the colliding name arrives
+                    lines.push(format!("birth dev {} scripted", h(a)));
+                    lines.push(script(&h(a), &m));
+                    lines.push(format!("birth undevh {} 0", h(a)));
+                }
+                lines.push(format!("birth dev {} scripted", h(b)));
+                lines.push(script(&h(b), &m));
+                lines.push(format!("birth drebirth {}", h(b)));
+                lines.push(format!("birth dev {} scripted", h(a)));
+                lines.push("birth rebirth".into());
+                lines.push(format!("birth pub {} 0", h(b)));
+                run_case(&lines, out, "gen:kept-handles");
+            }
+        }
+    }
     // duplicate and invalid device names
     let lines = vec![
         "birth new -".to_string(),
@@ -2159,7 +2245,21 @@ fn gen_random(out: &mut Out, rng: &mut Rng, n: usize) {
                 5 if !devs.is_empty() => {
                     let i = rng.below(devs.len() as u64) as usize;
                     let (d, _) = devs.remove(i);
-                    lines.push(format!("birth undev {}", h(&d)));
+                    if rng.chance(1, 3) {
+                        lines.push(format!("birth undevh {} {}", h(&d), rng.below(3)));
+                    } else {
+                        lines.push(format!("birth undev {}", h(&d)));
+                    }
+                }
+                5 => {
+                    // a kept handle of a name that may be unregistered already, or registered again since
+                    let name = match rng.below(4) {
+                        0 => PAIRS[1].0.to_string(),
+                        1 => PAIRS[1].1.to_string(),
+                        _ => format!("dev{}", rng.below(4)),
+                    };
+                    devs.retain(|d| d.0 != name);
+                    lines.push(format!("birth undevh {} {}", h(&name), rng.below(3)));
                 }
                 6 => lines.push(format!("birth regupd {}", random_upd(rng))),
                 7 => {
